@@ -427,6 +427,17 @@ Proof.
   split; [apply classes_disjoint|reflexivity].
 Qed.
 
+(* the two child loops of the model are the source's (translated on every run, Gen/FiltersGen.v): which children the hidden loop visits
+   (compute_preliminary l.376-392) and which the absolute pass skips (l.2076); the translator additionally checks that the hidden loop issues
+   the canonical perform_child_layout followed by set_unrounded_layout(child, &Layout::with_order(order)), and that EVERY other call of
+   flexbox.rs on `tree` that addresses a node is in one of the item functions and addresses `<item>.node` -- a new call site refuses *)
+Theorem C05_flex_model_loops_are_source :
+  forall (T : Type) (N : Num T) (st : list (FStyle T)),
+    hidden_flags st = map (fun s => flex_hidden_pass_visits (f_bgm s) (f_position s)) st /\
+    abs_children st = filter (fun c => negb (flex_absolute_pass_skips (@f_position T) (@f_bgm T) (snd c))) (g_enumerate st) /\
+    flex_hidden_pass_is_canonical = true /\ flex_tree_calls_address_item_only = true.
+Proof. intros T N st. apply flex_loops_are_generated. Qed.
+
 (* HiddenBlind, and its witness: the algorithm applied to the child styles is the algorithm applied to their images under
    f_hidden_view, which sends every display:none style to ONE bare display:none style *)
 Theorem C05_flex_algorithm_hidden_blind :
@@ -523,6 +534,7 @@ Print Assumptions C05_block_algorithm_hidden_blind.
 Print Assumptions C05_block_algorithm_sets_zero_on_hidden.
 Print Assumptions C05_block_engine_hidden_invisible.
 Print Assumptions C05_flex_algorithm_shape.
+Print Assumptions C05_flex_model_loops_are_source.
 Print Assumptions C05_flex_algorithm_hidden_blind.
 Print Assumptions C05_flex_algorithm_sets_zero_on_hidden.
 Print Assumptions C05_blockflex_engine_hidden_invisible.
